@@ -308,6 +308,26 @@ pub fn run() -> i32 {
                 o => t9.viols.push(Viol { key: format!("crash|{}", text), desc: o.crash_desc().unwrap(), case: json!({"rule2": text, "word": cw_json(&w), "expected": cw_json(&e)}) }),
             }
         } } } } }
+        // the same through a variable written as an EXTRA output element: `X=1 q > 1 q 1:[vF]` on /e X q X o/ puts a copy of X, with the feature,
+        // in front of the second X
+        for x in bases { let xb = seg(x); for (fi, f) in FEATS.iter().enumerate() { for val in [true, false] {
+            let Some(_) = model::feat(xb, fi) else { continue };
+            let nb = model::set_feat(xb, fi, val);
+            if nb == xb { continue; }
+            // (a literal cannot be given a variable: the group letter of X stands in for it)
+            let text = format!("{}=1 q > 1 q 1:[{}{}]", if x == "a" || x == "i" { "V" } else { "C" }, if val { "+" } else { "-" }, f.0);
+            let Out::Ok(Ok(compiled)) = guarded(5_000_000, || av::compile(&[group(&[&text])])) else { continue };
+            let (e_seg, o, q) = (seg("e"), seg("o"), seg("q"));
+            let w: CW = vec![CSyl { segs: vec![e_seg, xb, q, xb, o], stress: 0, tone: 0 }];
+            let e: CW = vec![CSyl { segs: vec![e_seg, xb, q, nb, xb, o], stress: 0, tone: 0 }];
+            t9.evals += 1;
+            match guarded(200_000, || av::apply_group(&compiled, 0, word_of(&w)).map(|x| cw_of(&x))) {
+                Out::Ok(Ok(got)) if got == e => { t9.nontrivial += 1; t9.states.insert(hash64(&(x, fi, val, 98u8))); }
+                Out::Ok(Ok(got)) => t9.viols.push(Viol { key: format!("extra-output-next-to-twin|{}|{}", text, show_cw(&w)), desc: format!("`{}` on /{}/: expected /{}/ (the written copy carries the feature, the segment after it is untouched), got /{}/", text, show_cw(&w), show_cw(&e), show_cw(&got)), case: json!({"rule2": text, "word": cw_json(&w), "expected": cw_json(&e)}) }),
+                Out::Ok(Err(_)) => {}
+                o => t9.viols.push(Viol { key: format!("crash|{}", text), desc: o.crash_desc().unwrap(), case: json!({"rule2": text, "word": cw_json(&w), "expected": cw_json(&e)}) }),
+            }
+        } } }
         r.boxes.push(json!({"box": "a segment inserted with a one-feature matrix next to its own twin (8 phones x 26 features x both values x before / after x neighbour short / long)", "cases": t9.evals, "as_model": t9.nontrivial}));
         r.guard(t9.nontrivial > 300, "box 9: more than 300 cases as the model says");
         tot.evals += t9.evals; tot.nontrivial += t9.nontrivial; tot.viols.extend(t9.viols); tot.states.extend(t9.states);
